@@ -3,4 +3,5 @@ let () =
   match Sys.argv with
   | [| _; "c03" |] -> C03.run ()
   | [| _; "script"; f |] -> Script.run f
+  | [| _; "judge"; f; o |] -> Judge.run f o
   | _ -> prerr_endline "usage: gvmodel <subcommand>"; exit 2
